@@ -429,6 +429,10 @@ def memo_keys(ctx, rule, files):
                      f"{fi.qual}: results are remembered in `{cont}` under `{key}`, but the remembered call receives `{arg}` itself; `{proj}` identifies less than `{arg}`, "
                      f"so a different `{arg}` with the same `{proj}` is served the first one's result", node=node)
         if ".<locals>." not in fi.qual:
+            for node, attr_, par in memokey.attr_memo_param_omitted(effects.engine(ctx.program).fx(fi)):
+                ctx.fail(rule, fi, f"memo-slot-omits:{par}",
+                         f"{fi.qual}: the result is remembered in the single slot `self.{attr_}` (returned as is when already set), but what is stored depends on the parameter `{par}`: "
+                         f"a later call with another `{par}` is served the first call's result", node=node)
             for node, cont, key, par in memokey.param_omitted(effects.engine(ctx.program).fx(fi)):
                 ctx.fail(rule, fi, f"memo-key-omits:{par}",
                          f"{fi.qual}: results are remembered in `{cont}` under `{key}`, but what is stored also depends on the parameter `{par}`, which is not part of the key: "
@@ -456,6 +460,7 @@ def child_status(ctx, rule, files):
 # findings of the exact lints that were read and are correct as they stand: (qualname, tag) -> why
 LINT_EXEMPT = {
     ("mkdir", "quantity-truthiness:mode"): "creation mode only: a missing or zero mode is created 0777 and the requested mode (tested with `is not None`) is enforced right after by ensure_perms",
+    ("pkgcore.util.parserestrict", "regex-punctuation-range:+-."): "as the tree stands the glob-token pattern `[\\w+-.]` also admits ','; a token with a comma then simply matches no package (no name contains one) — read, harmless, left alone",
     ("BugQuery.params", "optional-falsy-truth:offset"): "offset 0 is the server's default: leaving the parameter out is the same request",
 }
 
@@ -477,6 +482,11 @@ def classic_slips(ctx, rule, files):
             continue
         for node, tag, msg in lints.module_alias_write(m.tree):
             ctx.fail(rule, m, tag, msg, node=node)
+        for node, tag, msg in lints.implicit_concat_in_collection(m.tree, m.src) + lints.regex_punctuation_range(m.tree):
+            if (m.name, tag) in LINT_EXEMPT:
+                ctx.ob(rule, "lint exemption", f"{m.name}: {tag} — {LINT_EXEMPT[(m.name, tag)]}", file=m.relpath)
+            else:
+                ctx.fail(rule, m, tag, msg, node=node)
         for scope, owner in [(m.tree, m)] + [(K.node, K) for K in m.classes.values()]:
             for node, tag, msg in lints.clone_siblings(scope):
                 ctx.fail(rule, owner, tag, f"{getattr(owner, 'qual', '')}: " + msg, node=node)
